@@ -86,7 +86,34 @@ func checkC18(c *Ctx) {
 					c.Fail("C18.store", key, c.Prog.Pos(mu.Pos()), "RegMap.m is written outside (*RegMap).Store")
 					continue
 				}
-				_, okv := Match(mu.Value, CallTo(fnSetWidth, ParamNamed(store.Params[2].Name()), ParamNamed(store.Params[3].Name())))
+				// the value adjusted to the write width: SetWidth(e, w), or - for a
+				// value known to be a constant - the constant's own WithWidth(w),
+				// which is what SetWidth does to a constant; or a choice of those
+				var adjusted func(v ssa.Value, depth int) bool
+				adjusted = func(v ssa.Value, depth int) bool {
+					if depth > 4 {
+						return false
+					}
+					if _, ok := Match(v, CallTo(fnSetWidth, ParamNamed(store.Params[2].Name()), ParamNamed(store.Params[3].Name()))); ok {
+						return true
+					}
+					if _, ok := Match(v, Method("WithWidth", ExtractN(0, TypeAssertOf("pkg/expr.Const", ParamNamed(store.Params[2].Name()))), ParamNamed(store.Params[3].Name()))); ok {
+						return true
+					}
+					if _, ok := Match(v, Method("WithWidth", TypeAssertOf("pkg/expr.Const", ParamNamed(store.Params[2].Name())), ParamNamed(store.Params[3].Name()))); ok {
+						return true
+					}
+					if ph, ok := Unwrap(v).(*ssa.Phi); ok {
+						for _, e := range ph.Edges {
+							if !adjusted(e, depth+1) {
+								return false
+							}
+						}
+						return len(ph.Edges) > 0
+					}
+					return false
+				}
+				okv := adjusted(mu.Value, 0)
 				_, okk := Match(mu.Key, ParamN(1))
 				switch {
 				case !okk:
